@@ -120,6 +120,29 @@ namespace sse
         return b;
     }
 
+    // Lower the private low-degree threshold of the Boruvka basin graph inside every
+    // mst_sink_resolver of the sequence (the basin graph is created here, before the first
+    // update, exactly as the first update would create it).  Same code, tiny graphs: this is
+    // how the large-degree / edge-bucket path is reached on grids of <= 16 nodes.
+    template <class G>
+    bool set_boruvka_threshold(Built<G>& b, std::size_t thr)
+    {
+        using impl_t = typename Built<G>::impl_t;
+        using facade_t = fs::detail::flow_operator_impl_facade<impl_t>;
+        using wrap_t = typename facade_t::template flow_operator_impl_wrapper<fs::mst_sink_resolver>;
+        bool any = false;
+        for (auto& fac : b.fg->m_operators.m_op_impl_vec)
+        {
+            auto* w = dynamic_cast<wrap_t*>(fac.m_wrapper_ptr.get());
+            if (!w)
+                continue;
+            auto& bg = w->m_op_impl.get_basin_graph(b.fg->impl());
+            bg.m_max_low_degree = thr;
+            any = true;
+        }
+        return any;
+    }
+
     // ------------------------------------------------------------------ plain state
     struct GState
     {
